@@ -949,7 +949,8 @@ class Index(IndexBase):
                         raise LocInvalid('Invalid loc given in a slice', attr)
                 key = slice_to_inclusive_slice(key) #type: ignore
             elif isinstance(key, INT_TYPES):
-                if key < 0:
+                # an element key is also used arithmetically (a leaf position within a hierarchy): it must be a label
+                if key < 0 or key >= self.__len__():
                     raise KeyError(key)
             elif isinstance(key, list):
                 for k in key:
@@ -958,10 +959,20 @@ class Index(IndexBase):
             return key
 
         if self._map is None and offset is not None: # loc_is_iloc
+            # labels are the positions 0 to size - 1; as with a map, a key that is not a label raises (or, with partial_selection, is dropped), and an open slice end is the edge of these labels, not of the hierarchy
+            size = self.__len__()
             if key.__class__ is slice:
                 if key == NULL_SLICE:
-                    return slice(offset, self.__len__() + offset)
-                return slice_to_inclusive_slice(key, offset) #type: ignore
+                    return slice(offset, size + offset)
+                for attr in (key.start, key.stop): #type: ignore
+                    if attr is not None and not (isinstance(attr, INT_TYPES) and 0 <= attr < size):
+                        raise LocInvalid('Invalid loc given in a slice', attr)
+                key = slice_to_inclusive_slice(key, offset) #type: ignore
+                if key.step is None or key.step > 0: #type: ignore
+                    return slice(offset if key.start is None else key.start, #type: ignore
+                            size + offset if key.stop is None else key.stop, #type: ignore
+                            key.step) #type: ignore
+                return key
 
             if key.__class__ is np.ndarray:
                 # PERF: isolate for usage of _positions
@@ -972,11 +983,23 @@ class Index(IndexBase):
                     return self._positions[key] + offset
                 if key.dtype != DTYPE_INT_DEFAULT: #type: ignore
                     key = key.astype(DTYPE_INT_DEFAULT) #type: ignore
+                valid = (key >= 0) & (key < size) #type: ignore
+                if partial_selection:
+                    return key[valid] + offset #type: ignore
+                if not valid.all():
+                    raise KeyError(key[~valid][0]) #type: ignore
                 return key + offset
 
             if isinstance(key, list):
-               return [k + offset for k in key]
+                if partial_selection:
+                    return [k + offset for k in key if isinstance(k, INT_TYPES) and 0 <= k < size]
+                for k in key:
+                    if not (isinstance(k, INT_TYPES) and 0 <= k < size):
+                        raise KeyError(k)
+                return [k + offset for k in key]
             # a single element
+            if not (isinstance(key, INT_TYPES) and 0 <= key < size):
+                raise KeyError(key)
             return key + offset # type: ignore
 
         if key_transform:
